@@ -160,6 +160,13 @@ def concrete_faults(ev, counts, every, n_model=3):
     return [(b, max(1, min(total, k)))]
 
 
+def make_junk(target):
+    """an unreadable directory: part of a tree, no root marker (what a straggling zarr write leaves)."""
+    os.makedirs(os.path.join(target, "arr", "c"))
+    with open(os.path.join(target, "arr", "c", "0"), "wb") as f:
+        f.write(b"\x00" * 16)
+
+
 def run_scenario(arg):
     """Replays one model scenario.  Returns list of (key, msg) problems."""
     sc, idx, every = arg
@@ -201,6 +208,8 @@ def run_scenario(arg):
         with contextlib.redirect_stdout(io.StringIO()):
             if was == "foreign":
                 open(target, "w").write("not an archive")
+            elif was == "junk":
+                make_junk(target)
             elif was == "dir":
                 make_obj(100, shape_id).save(os.path.join(base, "seed"), store="dir")
                 os.rename(os.path.join(base, "seed"), target)
@@ -309,12 +318,24 @@ def run_scenario(arg):
                         shutil.rmtree(os.path.join(tdir, x), ignore_errors=True)
                 if scratch:
                     shutil.rmtree(scratch, ignore_errors=True)
+            # the model leaves, after a failed directory-store save, either nothing or an unreadable
+            # remnant re-created by one of zarr's straggling writes.  Which of the two happens is a race the
+            # harness cannot steer, so the real file system is brought to the model's choice: a remnant
+            # (already checked above to be unreadable) is removed, or an unreadable directory is put in place
+            left = res.get("left")
+            if left == "none" and store == "dir" and res["ev"] == "fail-writing" and os.path.isdir(target) \
+                    and not os.path.exists(os.path.join(target, "zarr.json")):
+                shutil.rmtree(target)
+                problems.append(("note:straggler", ""))
+            elif left == "junk" and not os.path.lexists(target):
+                make_junk(target)
             # consistency of the replay with the model: kind of the target before the next save
             if i < len(events):
                 nxt = events[i]["ev"][6:]
                 real = "none" if not os.path.lexists(target) else (
-                    "dir" if os.path.isdir(target) else ("zip" if zipfile.is_zipfile(target) else "foreign"))
-                if nxt != real and not problems:
+                    ("dir" if os.path.exists(os.path.join(target, "zarr.json")) else "junk") if os.path.isdir(target)
+                    else ("zip" if zipfile.is_zipfile(target) else "foreign"))
+                if nxt != real and not [p for p in problems if not p[0].startswith("note:")]:
                     problems.append(("model-mismatch", f"model expects target kind {nxt} before save "
                                                        f"{ident + 1}, real file system has {real}"))
     finally:
@@ -394,17 +415,22 @@ def check(rep, tier, seed):
                            "replayed": len(scen), "every_concrete_position": not quick})
     rep.sample({"scenario": scen[0]})
     res = pmap(run_scenario, [(s, i, not quick) for i, s in enumerate(scen)], procs=16, chunk=4)
+    stragglers = [0]
     for s, probs in zip(scen, res):
         rep.add_traces(1)
         rep.add_eval(len(s["init"]) // 2)
         rep.add_distinct(s["init"])
         seen = set()
         for key, msg in probs:
+            if key.startswith("note:"):
+                stragglers[0] += 1
+                continue
             k = f"C08:{key}"
             if k in seen:
                 continue
             seen.add(k)
             rep.mismatch(k, msg, {"scenario": s, "message": msg})
+    rep.note("straggler_remnants_seen", stragglers[0])
     for key, msg in natural_failures(rep):
         rep.mismatch(f"C08:{key}", msg, {"natural": msg})
     rule = ("fault scenarios are the behaviours of SaveFaults.tla exported by TLC (pre-existing "
@@ -421,6 +447,7 @@ def replay(path):
     if "scenario" in rp:
         out = run_scenario((rp["scenario"], 1, True)) + run_scenario((rp["scenario"], 0, True)) \
             + run_scenario((rp["scenario"], 2, True))
+        out = [o for o in out if not o[0].startswith("note:")]
         for o in out:
             print(o)
         return 1 if out else 0
